@@ -571,6 +571,9 @@ def rbase():
                     F("dft", "Int", [A("c", "Int", 1)]),
                     F("two", "Int", [A("a", "Int!"), A("b", "Int")]),
                     F("py", "Int", [A("someArg", "Int", pyname="some_arg")]),
+                    # the SAME argument names as req / opt with the opposite optionality (one callable serving both)
+                    F("aopt", "Int", [A("a", "Int")]),
+                    F("breq", "Int", [A("b", "Int!")]),
                 ],
             ),
             T("interface", "Iface", fields=[F("iv", "Int", [A("b", "Int")])]),
@@ -724,6 +727,8 @@ SHARED_SITES = [
     ("Query", "dft"),
     ("Query", "two"),
     ("Query", "py"),
+    ("Query", "aopt"),
+    ("Query", "breq"),
     ("Iface", "iv"),
     ("Impl", "iv"),
 ]
@@ -782,6 +787,8 @@ PRECEDENCE_SIGNATURES = [
     "root, ctx, info",
     "root, ctx",
     "root, ctx, info, extra",
+    "root, ctx, info, a, **kw",
+    "root, ctx, info, b, **kw",
 ]
 
 
